@@ -63,7 +63,7 @@ var triggers = []trigger{
 		id: "KF-W2", props: wmProps,
 		match: func(c *core.Case, f *features, class string, v *core.Verdict) bool {
 			vv := c.Cfg.V
-			return vv >= mach.MVP4 && vv <= mach.MVP63 && isMismatch(class) && f.tConflict.explainsClass(class, v)
+			return vv >= mach.MVP4 && vv <= mach.MVP63 && f.tConflict.explainsClass(class, v)
 		},
 	},
 	{
@@ -83,7 +83,7 @@ var triggers = []trigger{
 				// expectation of the branch unit: the older branch never redirects
 				return true
 			}
-			if vv < mach.MVP61 || f.takenBranches == 0 || !isMismatch(class) || !f.tShadow.explainsClass(class, v) {
+			if vv < mach.MVP61 || f.takenBranches == 0 || !f.tShadow.explainsClass(class, v) {
 				return false
 			}
 			if vv <= mach.MVP62 {
@@ -100,7 +100,7 @@ var triggers = []trigger{
 		// that register and what is computed from it.
 		id: "KF-W4", props: wmProps,
 		match: func(c *core.Case, f *features, class string, v *core.Verdict) bool {
-			return c.Cfg.V >= mach.MVP63 && isMismatch(class) && f.tSlowWaw.explainsClass(class, v)
+			return c.Cfg.V >= mach.MVP63 && f.tSlowWaw.explainsClass(class, v)
 		},
 	},
 	{
@@ -128,7 +128,7 @@ var triggers = []trigger{
 			if strings.HasPrefix(b, "panic:risc.(*Context).WriteMemory") || strings.HasPrefix(b, "panic:proc/mvp") && strings.Contains(b, "fetchCacheLine") {
 				return true
 			}
-			return isMismatch(class) && f.tWar.explainsClass(class, v)
+			return f.tWar.explainsClass(class, v)
 		},
 	},
 	{
@@ -137,7 +137,7 @@ var triggers = []trigger{
 		// same line issued to different cores can be performed out of order.
 		id: "KF-W9", props: wmProps,
 		match: func(c *core.Case, f *features, class string, v *core.Verdict) bool {
-			return c.Cfg.V >= mach.MVP70 && c.Cfg.Cores >= 2 && isMismatch(class) && f.tConflict.explainsClass(class, v)
+			return c.Cfg.V >= mach.MVP70 && c.Cfg.Cores >= 2 && f.tConflict.explainsClass(class, v)
 		},
 	},
 	{
@@ -177,7 +177,7 @@ var triggers = []trigger{
 		// order (which back-pressure on the write bus scrambles) is left.
 		id: "KF-W11", props: wmProps,
 		match: func(c *core.Case, f *features, class string, v *core.Verdict) bool {
-			return c.Cfg.V >= mach.MVP63 && isMismatch(class) && f.tRing.explainsClass(class, v)
+			return c.Cfg.V >= mach.MVP63 && f.tRing.explainsClass(class, v)
 		},
 	},
 	{
@@ -407,6 +407,13 @@ func orphanSnoopEvent(c *core.Case) bool {
 			sem[x.Addr] = locks{x.Read, x.Write}
 		}
 		cur := map[key]locks{}
+		if os.Getenv("VERIF_DEBUG_ORPHAN") != "" && (len(s.Commands) > 0) {
+			fmt.Fprintf(os.Stderr, "tick %d cmds %+v sems %+v busy", cycle, s.Commands, s.Sems)
+			for i, c := range s.Cores {
+				fmt.Fprintf(os.Stderr, " c%d:r%v/w%v/s%v", i, c.ReadBusy, c.WriteBusy, c.SnoopBusy)
+			}
+			fmt.Fprintln(os.Stderr)
+		}
 		for _, cmd := range s.Commands {
 			if cmd.Done {
 				continue
